@@ -29,7 +29,8 @@ var verifC07Expand = strings.NewReplacer(
 	"$R", "{(a: x, b: 0), (a: y, b: 1), (a: z, b: 2), (a: 11, b: 3), (a: 12, b: 4), (a: 13, b: 5), (a: 14, b: 6), (a: 15, b: 7), (a: 16, b: 8)}",
 	"$K", "{(@: x, v: 1), (@: y, v: 2), (@: z, v: 3), (@: 11, v: 4), (@: 12, v: 5), (@: 13, v: 6), (@: 14, v: 7), (@: 15, v: 8), (@: 16, v: 9)}",
 	"$D", "{x + 20: 1, y + 30: 2, z + 40: 3, 11: 4, 12: 5, 13: 6, 14: 7, 15: 8, 16: 9}",
-	"$F", "{(k: 0, a: f), (k: 1, a: g), (k: 2, a: h), (k: 3, a: 0), (k: 4, a: 0), (k: 5, a: 0), (k: 6, a: 0), (k: 7, a: 0), (k: 8, a: 0)}",
+	"$T", "{\"pear\", 1\\\"fig\", \"apple\", 2\\\"kiwi\", \"plum\", 3\\\"lime\", \"date\", 4\\\"pear\", \"cherry\"}",
+	"$F","{(k: 0, a: f), (k: 1, a: g), (k: 2, a: h), (k: 3, a: 0), (k: 4, a: 0), (k: 5, a: 0), (k: 6, a: 0), (k: 7, a: 0), (k: 8, a: 0)}",
 )
 
 var verifC07Programs = []string{
@@ -62,6 +63,9 @@ var verifC07Programs = []string{
 	"$S => (k: ., v: . * .) -> . <&> {(k: x)}",
 	"$D +> {x + 20: y, 50: z}",
 	"$K => .@",
+	"$T orderby .",
+	"$T => (. ++ \"s\")",
+	"$T | {x}",
 	"$S -> \\s s where \\a (s where \\b b > a) count > 9",
 }
 
